@@ -35,6 +35,18 @@ def c06_1(c: Ctx) -> None:
                 continue
         if held:
             c.ok(where(u, call), f'`{U(call)[:60]}` executes with the global lock held')
+            # ... and ends within the hold: the coroutine is awaited in place (or through wait_for, which cancels it and waits for it to finish).  Handed to shield / create_task /
+            # ensure_future / gather it lives on as a task of its own when the holder is cancelled: the holder leaves the `async with`, the lock is free, and the handlers still run
+            par = parent(call)
+            via = None
+            if isinstance(par, ast.Call) and call in par.args:
+                via = call_name(par)
+                par = parent(par)
+            if isinstance(par, ast.Await) and via in (None, 'wait_for'):
+                c.ok(where(u, call), 'the processing coroutine is awaited in place: it cannot outlive the hold of the lock')
+            else:
+                c.fail(u, f'{U(call)[:60]} is not awaited in place (handed to {via or U(par)[:30]})', 'the processing of an event is detached from the hold of the global lock: when the holder is cancelled (stop(), a '
+                       'timeout around step) the lock is released while the handlers of this event are still running, and another bus starts processing at the same time', node=call)
         else:
             c.fail(u, f'{U(call)[:80]} reached without the global lock (call chain {" <- ".join(chain)})', 'an event is processed without the cross-bus processing lock: handlers of two buses can overlap', node=call)
     # singleton
@@ -453,6 +465,89 @@ def c06_7(c: Ctx) -> None:
     from .c01 import check_memo_coherence
 
     check_memo_coherence(c)
+
+
+@ob('C06.8', 'TYPESTATE', 'the re-entrance counter of the global lock counts the holds: +1 on every re-entrant __aenter__, set to 1 (or +1) by the acquiring __aenter__, -1 on every '
+    'owning __aexit__, and written nowhere else — a counter that forgets an outer hold lets the first inner exit release the lock while the outer holder is still inside')
+def c06_8(c: Ctx) -> None:
+    check_depth_counter(c)
+
+
+def check_depth_counter(c: Ctx) -> None:
+    from sa.loops import lin
+
+    ae, ax = c.unit(SVC, 'ReentrantLock.__aenter__'), c.unit(SVC, 'ReentrantLock.__aexit__')
+    init = c.unit(SVC, 'ReentrantLock.__init__')
+    ws = [w for w in c.cg.all_writes('_depth') if w.unit.cls == 'ReentrantLock' or (w.base is not None and c.prog.infer(w.base, w.unit) == 'ReentrantLock')]
+    c.floor(len(ws), 4, 'writes of ReentrantLock._depth')
+
+    def delta(w) -> tuple[str, int] | None:
+        """('set', k) for `_depth = k`, ('add', k) for `_depth += k` / `_depth = _depth + k`."""
+        n = w.node
+        tgt = U(n.target) if isinstance(n, ast.AugAssign) else (U(n.targets[0]) if isinstance(n, ast.Assign) and len(n.targets) == 1 else None)
+        if tgt is None:
+            return None
+        if isinstance(n, ast.AugAssign):
+            l = lin(n.value, {})
+            if l is not None and set(l) <= {1} and isinstance(n.op, (ast.Add, ast.Sub)):
+                k = l.get(1, 0)
+                return ('add', k if isinstance(n.op, ast.Add) else -k)
+            return None
+        l = lin(n.value, {})
+        if l is None:
+            return None
+        if set(l) <= {1}:
+            return ('set', l.get(1, 0))
+        if set(l) <= {1, tgt} and l.get(tgt) == 1:
+            return ('add', l.get(1, 0))
+        return None
+
+    for w in ws:
+        d = delta(w)
+        u = w.unit
+        if u.key == init.key:
+            if d == ('set', 0):
+                c.ok(where(u, w.node), 'a new lock starts at depth 0')
+            else:
+                c.fail(u, f'initial depth: {U(w.node)}', 'the counter does not start at 0: the first exit does not release the lock (or releases it twice)', node=w.node)
+            continue
+        if u.key not in (ae.key, ax.key):
+            c.fail(u, f'writes the re-entrance counter: {U(w.node)[:60]}', f'the re-entrance counter of the global lock is changed outside __aenter__/__aexit__ (in {u.qualname})', node=w.node)
+            continue
+        g = c.cfg(u)
+        facts = Facts(lambda a: a == 'holds_global_lock.get()', cg=c.cg, unit=u, taskvars=TASKVARS)
+        nodes = g.nodes_of(q.stmt_of(w.node))
+        owner = all(q.guard_search(g, n, 'holds_global_lock.get()', facts) is None for n in nodes)
+        stranger = all(q.guard_search(g, n, 'not holds_global_lock.get()', facts) is None for n in nodes)
+        if u.key == ae.key:
+            if owner and d == ('add', 1):
+                c.ok(where(u, w.node), 're-entrant __aenter__ (flag already true): depth + 1')
+            elif owner:
+                c.fail(u, f're-entrant __aenter__ writes the counter as {U(w.node)}', 'a re-entrant hold is not counted on top of the holds already there: the first inner exit brings the counter to 0 and releases the lock while the '
+                       'outer holder is still inside — another bus starts processing in the middle of it', node=w.node)
+            elif d in (('set', 1), ('add', 1)):
+                c.ok(where(u, w.node), 'acquiring __aenter__: depth becomes 1')
+            else:
+                c.fail(u, f'acquiring __aenter__ writes the counter as {U(w.node)}', 'the first hold is not counted as one: its exit does not release the lock (or a re-entered hold releases it early)', node=w.node)
+        else:
+            if d == ('add', -1) and (owner or not stranger):
+                c.ok(where(u, w.node), 'owning __aexit__: depth - 1')
+            else:
+                c.fail(u, f'__aexit__ writes the counter as {U(w.node)}', 'an exit does not give back exactly the one hold it ends: the lock is released early or never', node=w.node)
+    # every normal return of __aenter__ has counted its hold; every owning __aexit__ has given one back
+    from sa.cfg import search
+
+    for u, what in ((ae, 'enter'), (ax, 'exit')):
+        g = c.cfg(u)
+        wn = {n.id for w in ws if w.unit.key == u.key for n in g.nodes_of(q.stmt_of(w.node))}
+        facts = Facts(lambda a: a == 'holds_global_lock.get()', cg=c.cg, unit=u, taskvars=TASKVARS)
+        env0 = {} if what == 'enter' else {'holds_global_lock.get()': 'T'}
+        p = q.reach_search(g, [(g.entry, dict(env0))], lambda n, d: n.kind == 'exit', lambda n, d: n.id in wn, facts, lambda e: False)
+        if p is None:
+            c.ok(where(u), f'every normal return of __a{what}__' + (' counts its hold' if what == 'enter' else ' by an owner gives one hold back'))
+        else:
+            c.fail(u, f'__a{what}__ returns without touching the counter', 'a hold is entered (or ended) without being counted: the counter and the number of holders disagree, and the lock is released while one of them is still inside',
+                   witness=c.path(g.entry, p))
 
 
 OBLIGATIONS = ob.obs
